@@ -3,8 +3,37 @@ verus! {
 
 global size_of usize == 8;
 
+pub const MIN_MATCH_LEN: usize = 5;
+
 #[verifier::external_body]
 pub struct SuffixStore { _p: core::marker::PhantomData<u8> }
+
+impl SuffixStore {
+    /// abstract content of the hash store: index `i` is held in some slot
+    pub uninterp spec fn holds(&self, i: int) -> bool;
+
+    /// contract of the real SuffixStore::get (Kani obligation E7.e7_suffix_store): only stored indices come back
+    #[verifier::external_body]
+    pub fn get(&self, suffix: &[u8]) -> (r: Option<usize>)
+        requires suffix@.len() >= MIN_MATCH_LEN,
+        ensures r matches Some(i) ==> self.holds(i as int),
+    { unimplemented!() }
+    #[verifier::external_body]
+    pub fn contains_key(&self, suffix: &[u8]) -> (r: bool)
+        requires suffix@.len() >= MIN_MATCH_LEN,
+    { unimplemented!() }
+    /// contract of the real SuffixStore::insert (Kani obligation E7.e7_suffix_store): nothing but `idx` is added
+    #[verifier::external_body]
+    pub fn insert(&mut self, suffix: &[u8], idx: usize)
+        requires suffix@.len() >= MIN_MATCH_LEN, idx < usize::MAX,
+        ensures forall|i: int| #[trigger] final(self).holds(i) ==> old(self).holds(i) || i == idx,
+    { unimplemented!() }
+}
+
+pub enum Sequence<'data> {
+    Triple { literals: &'data [u8], offset: usize, match_len: usize },
+    Literals { literals: &'data [u8] },
+}
 
 pub struct WindowEntry {
     pub data: Vec<u8>,
@@ -84,7 +113,75 @@ pub proof fn lemma_len_from_nonneg(w: Seq<WindowEntry>, from: int)
     if 0 <= from < w.len() { lemma_len_from_nonneg(w, from + 1); }
 }
 
+pub proof fn lemma_len_from_ge_last(w: Seq<WindowEntry>, i: int)
+    requires 0 <= i < w.len(),
+    ensures len_from(w, i) >= w[w.len() - 1].data@.len(), i < w.len() - 1 ==> len_from(w, i) >= w[i].data@.len() + w[w.len() - 1].data@.len(),
+    decreases w.len() - i,
+{
+    if i < w.len() - 1 { lemma_len_from_ge_last(w, i + 1); } else { assert(len_from(w, i + 1) == 0); }
+}
+
+/// distances only depend on the data lengths: they survive changes to the suffix stores
+pub proof fn lemma_wf_transfer(w_old: Seq<WindowEntry>, w_new: Seq<WindowEntry>)
+    requires same_data(w_new, w_old), forall|i: int| 0 <= i < w_old.len() ==> (#[trigger] w_old[i]).base_offset == dist_to_last(w_old, i),
+    ensures forall|i: int| 0 <= i < w_new.len() ==> (#[trigger] w_new[i]).base_offset == dist_to_last(w_new, i), len_from(w_new, 0) == len_from(w_old, 0),
+{
+    lemma_len_from_same_lens(w_new, w_old, 0);
+    assert forall|i: int| 0 <= i < w_new.len() implies (#[trigger] w_new[i]).base_offset == dist_to_last(w_new, i) by {
+        lemma_len_from_same_lens(w_new, w_old, i);
+        assert(w_old[i].base_offset == dist_to_last(w_old, i));
+    }
+}
+
+/// a true match: `match_len` bytes starting at `mi` in retained entry `m` equal the bytes starting at `s` in the newest entry, the source range
+/// lies inside that entry (starting before `s` if it is the newest entry itself: an overlapping match is a legal LZ77 match), and `offset` is
+/// exactly the distance between the two positions
+pub open spec fn match_at(w: Seq<WindowEntry>, s: int, offset: int, match_len: int, m: int, mi: int) -> bool {
+    let n = w.len() as int;
+    let last = w[n - 1].data@;
+    &&& 0 <= m < n && 0 <= mi
+    &&& (if m == n - 1 { mi < s } else { mi + match_len <= w[m].data@.len() })
+    &&& s + match_len <= last.len()
+    &&& offset == dist_to_last(w, m) + s - mi
+    &&& forall|i: int| 0 <= i < match_len ==> #[trigger] w[m].data@[mi + i] == last[s + i]
+}
+/// what the match finder may report for the newest block when the previous sequence ended at `from`
+pub open spec fn seq_ok(w: Seq<WindowEntry>, from: int, max_window: int, seq: Sequence) -> bool {
+    let n = w.len() as int;
+    let last = w[n - 1].data@;
+    match seq {
+        Sequence::Literals { literals } => from <= last.len() && literals@ == last.subrange(from, last.len() as int),
+        Sequence::Triple { literals, offset, match_len } => {
+            let s = from + literals@.len();
+            &&& s + match_len <= last.len() && literals@ == last.subrange(from, s)
+            &&& match_len >= MIN_MATCH_LEN
+            // the distance stays inside the data still retained, hence inside the advertised window
+            &&& 1 <= offset <= len_from(w, 0) - last.len() + s && offset <= max_window
+            &&& exists|m: int, mi: int| match_at(w, s, offset as int, match_len as int, m, mi)
+        }
+    }
+}
+/// data and distances of two windows agree (only suffix stores may differ)
+pub open spec fn same_data(a: Seq<WindowEntry>, b: Seq<WindowEntry>) -> bool {
+    a.len() == b.len() && forall|i: int| 0 <= i < a.len() ==> (#[trigger] a[i]).data == b[i].data && a[i].base_offset == b[i].base_offset
+}
+
 impl MatchGenerator {
+    /// invariant of the suffix stores: every stored index lies inside its entry, and below suffix_idx in the newest entry
+    pub open spec fn sfx_ok(&self) -> bool {
+        let w = self.window@;
+        let n = w.len() as int;
+        &&& n > 0 ==> self.last_idx_in_sequence <= self.suffix_idx <= w[n - 1].data@.len()
+        &&& forall|m: int, i: int| 0 <= m < n - 1 && #[trigger] w[m].suffixes.holds(i) ==> 0 <= i < w[m].data@.len()
+        &&& forall|i: int| n > 0 && #[trigger] w[n - 1].suffixes.holds(i) ==> 0 <= i < self.suffix_idx
+    }
+
+    /// contract of common_prefix_len (iterator adapters: outside Verus; Kani obligation E7.e7_common_prefix, bounded lengths)
+    #[verifier::external_body]
+    pub fn common_prefix_len(a: &[u8], b: &[u8]) -> (r: usize)
+        ensures r <= a@.len(), r <= b@.len(), forall|i: int| 0 <= i < r ==> a@[i] == b@[i],
+    { unimplemented!() }
+
     /// representation invariant of the window
     pub open spec fn wf(&self) -> bool {
         let w = self.window@;
@@ -95,8 +192,11 @@ impl MatchGenerator {
 
     #[verifier::external_body]
     pub fn add_suffixes_till(&mut self, idx: usize)
-        requires old(self).window@.len() > 0,
+        requires old(self).window@.len() > 0, old(self).suffix_idx <= idx <= old(self).window@[old(self).window@.len() - 1].data@.len(),
         ensures
+            forall|i: int| 0 <= i < old(self).window@.len() - 1 ==> (#[trigger] final(self).window@[i]).suffixes == old(self).window@[i].suffixes,
+            forall|i: int| #[trigger] final(self).window@[old(self).window@.len() - 1].suffixes.holds(i)
+                ==> old(self).window@[old(self).window@.len() - 1].suffixes.holds(i) || (old(self).suffix_idx <= i < idx),
             final(self).max_window_size == old(self).max_window_size, final(self).window_size == old(self).window_size,
             final(self).suffix_idx == old(self).suffix_idx, final(self).last_idx_in_sequence == old(self).last_idx_in_sequence,
             final(self).window@.len() == old(self).window@.len(),
@@ -118,8 +218,8 @@ impl MatchGenerator {
     }
 
     pub fn skip_matching(&mut self)
-        requires old(self).wf(), old(self).window@.len() > 0,
-        ensures final(self).wf(), blocks(final(self).window@) =~= blocks(old(self).window@), final(self).max_window_size == old(self).max_window_size,
+        requires old(self).wf(), old(self).sfx_ok(), old(self).window@.len() > 0,
+        ensures final(self).wf(), final(self).sfx_ok(), blocks(final(self).window@) =~= blocks(old(self).window@), final(self).max_window_size == old(self).max_window_size,
             final(self).suffix_idx == old(self).window@[old(self).window@.len() - 1].data@.len(),
             final(self).last_idx_in_sequence == final(self).suffix_idx,
 {
@@ -135,6 +235,193 @@ impl MatchGenerator {
             }
         }
 }
+
+    pub fn next_sequence(&mut self, mut handle_sequence: impl for<'a> FnMut(Sequence<'a>)) -> (r: bool)
+        requires
+            old(self).wf(), old(self).sfx_ok(), old(self).window@.len() > 0,
+            old(self).max_window_size <= usize::MAX / 2,
+            // every sequence handed to the callback is a legitimate one: this is the property, as the callback's precondition
+            forall|seq: Sequence| seq_ok(old(self).window@, old(self).last_idx_in_sequence as int, old(self).max_window_size as int, seq) ==> handle_sequence.requires((seq,)),
+        ensures
+            final(self).wf(), final(self).sfx_ok(), same_data(final(self).window@, old(self).window@), final(self).max_window_size == old(self).max_window_size,
+            // progress / completion: a reported sequence ends where the next one starts; `false` only when the whole block has been reported
+            r ==> final(self).last_idx_in_sequence > old(self).last_idx_in_sequence && final(self).suffix_idx == final(self).last_idx_in_sequence,
+            !r ==> old(self).last_idx_in_sequence == old(self).window@[old(self).window@.len() - 1].data@.len()
+                && final(self).last_idx_in_sequence == old(self).last_idx_in_sequence && final(self).suffix_idx == old(self).suffix_idx,
+{
+        let ghost w0 = old(self).window@;
+        let ghost n = w0.len() as int;
+        let ghost from = old(self).last_idx_in_sequence as int;
+        let ghost maxw = old(self).max_window_size as int;
+        let ghost lastd = w0[n - 1].data@;
+        proof { lemma_len_from_ge_last(w0, 0); }
+        loop 
+            invariant
+                self.wf(), self.sfx_ok(), same_data(self.window@, w0), self.max_window_size == maxw, maxw <= usize::MAX / 2,
+                n == w0.len(), n > 0, lastd == w0[n - 1].data@, w0 == old(self).window@, from == old(self).last_idx_in_sequence, maxw == old(self).max_window_size,
+                self.last_idx_in_sequence == from, self.suffix_idx >= old(self).suffix_idx, from <= old(self).suffix_idx,
+                old(self).wf(),
+                forall|seq: Sequence| seq_ok(w0, from, maxw, seq) ==> handle_sequence.requires((seq,)),
+            decreases lastd.len() - self.suffix_idx,
+{
+            let last_entry = self.window.last().unwrap();
+            let data_slice = &last_entry.data;
+
+            // We already reached the end of the window, check if we need to return a Literals{}
+            if self.suffix_idx >= data_slice.len() {
+                if self.last_idx_in_sequence != self.suffix_idx {
+                    let literals = &data_slice[self.last_idx_in_sequence..];
+                    self.last_idx_in_sequence = self.suffix_idx;
+                    proof {
+                        assert(self.window@[n - 1].data == w0[n - 1].data);
+                        assert(literals@ == lastd.subrange(from, lastd.len() as int));
+                        assert(seq_ok(w0, from, maxw, Sequence::Literals { literals }));
+                    }
+                    handle_sequence(Sequence::Literals { literals });
+                    return true;
+                } else {
+                    return false;
+                }
+            }
+
+            // If the remaining data is smaller than the minimum match length we can stop and return a Literals{}
+            let data_slice = &data_slice[self.suffix_idx..];
+            if data_slice.len() < MIN_MATCH_LEN {
+                let last_idx_in_sequence = self.last_idx_in_sequence;
+                self.last_idx_in_sequence = last_entry.data.len();
+                self.suffix_idx = last_entry.data.len();
+                proof {
+                    assert(self.window@[n - 1].data == w0[n - 1].data);
+                    assert(last_entry.data@ == lastd);
+                    assert(last_idx_in_sequence == from);
+                    assert forall|lit: &[u8]| lit@ == lastd.subrange(from, lastd.len() as int) implies #[trigger] handle_sequence.requires((Sequence::Literals { literals: lit },)) by {
+                        assert(seq_ok(w0, from, maxw, Sequence::Literals { literals: lit }));
+                    }
+                }
+                handle_sequence(Sequence::Literals {
+                    literals: &last_entry.data[last_idx_in_sequence..],
+                });
+                return true;
+            }
+
+            // This is the key we are looking to find a match for
+            let key = &data_slice[..MIN_MATCH_LEN];
+
+            // Look in each window entry
+            let ghost mut cm: int = 0;
+            let ghost mut cmi: int = 0;
+            proof {
+                assert forall|i: int| 0 <= i < n implies (#[trigger] w0[i]).base_offset == dist_to_last(w0, i) by {}
+                lemma_wf_transfer(w0, self.window@);
+            }
+            let mut candidate: Option<(usize, usize)> = None;
+            for match_entry_idx in 0..self.window.len() 
+                invariant
+                    self.wf(), self.sfx_ok(), same_data(self.window@, w0), self.max_window_size == maxw, maxw <= usize::MAX / 2,
+                    n == w0.len(), n > 0, lastd == w0[n - 1].data@, self.window@.len() == n,
+                    forall|i: int| 0 <= i < n ==> (#[trigger] w0[i]).base_offset == dist_to_last(w0, i),
+                    len_from(w0, 0) <= maxw,
+                    self.suffix_idx + MIN_MATCH_LEN <= lastd.len(),
+                    key@.len() == MIN_MATCH_LEN,
+                    data_slice@ == lastd.subrange(self.suffix_idx as int, lastd.len() as int),
+                    candidate matches Some((o, l)) ==> l >= MIN_MATCH_LEN && match_at(w0, self.suffix_idx as int, o as int, l as int, cm, cmi),
+{ let match_entry = &self.window[match_entry_idx];
+                let is_last = match_entry_idx == self.window.len() - 1;
+                if let Some(match_index) = match_entry.suffixes.get(key) {
+                    let match_slice = if is_last {
+                        &match_entry.data[match_index..self.suffix_idx]
+                    } else {
+                        &match_entry.data[match_index..]
+                    };
+
+                    // Check how long the common prefix actually is
+                    let match_len = Self::common_prefix_len(match_slice, data_slice);
+
+                    // Collisions in the suffix store might make this check fail
+                    if match_len >= MIN_MATCH_LEN {
+                        let ghost m = match_entry_idx as int;
+                        proof {
+                            assert(match_entry.base_offset == w0[m].base_offset);
+                            assert(match_entry.suffixes.holds(match_index as int));
+                            lemma_len_from_mono(w0, m);
+                            lemma_len_from_ge_last(w0, m);
+                        }
+                        let offset = match_entry.base_offset + self.suffix_idx - match_index;
+
+                        // If we are in debug/tests make sure the match we found is actually at the offset we calculated
+                        
+
+                        proof {
+                            assert(match_entry.data@ == w0[m].data@);
+                            assert forall|i: int| 0 <= i < match_len implies #[trigger] w0[m].data@[match_index + i] == lastd[self.suffix_idx + i] by {
+                                assert(match_slice@[i] == data_slice@[i]);
+                            }
+                            assert(match_at(w0, self.suffix_idx as int, offset as int, match_len as int, m, match_index as int));
+                        }
+                        if let Some((old_offset, old_match_len)) = candidate {
+                            if match_len > old_match_len
+                                || (match_len == old_match_len && offset < old_offset)
+                            {
+                                candidate = Some((offset, match_len));
+                                proof { cm = m; cmi = match_index as int; }
+                            }
+                        } else {
+                            candidate = Some((offset, match_len));
+                            proof { cm = m; cmi = match_index as int; }
+                        }
+                    }
+                }
+            }
+
+            if let Some((offset, match_len)) = candidate {
+                // For each index in the match we found we do not need to look for another match
+                // But we still want them registered in the suffix store
+                self.add_suffixes_till(self.suffix_idx + match_len);
+                proof {
+                    assert(same_data(self.window@, w0));
+                    lemma_wf_transfer(w0, self.window@);
+                }
+                let ghost s0 = self.suffix_idx as int;
+
+                // All literals that were not included between this match and the last are now included here
+                let last_entry = self.window.last().unwrap();
+                let literals = &last_entry.data[self.last_idx_in_sequence..self.suffix_idx];
+
+                // Update the indexes, all indexes upto and including the current index have been included in a sequence now
+                self.suffix_idx += match_len;
+                self.last_idx_in_sequence = self.suffix_idx;
+                proof {
+                    assert(self.window@[n - 1].data == w0[n - 1].data);
+                    assert(literals@ == lastd.subrange(from, s0));
+                    assert(match_at(w0, s0, offset as int, match_len as int, cm, cmi));
+                    lemma_len_from_mono(w0, cm);
+                    lemma_len_from_ge_last(w0, cm);
+                    assert(seq_ok(w0, from, maxw, Sequence::Triple { literals, offset, match_len }));
+                    // tiling: the reported sequence ends exactly where the next one will start
+                    assert(self.last_idx_in_sequence == from + literals@.len() + match_len);
+                }
+                handle_sequence(Sequence::Triple {
+                    literals,
+                    offset,
+                    match_len,
+                });
+
+                return true;
+            }
+
+            let last_entry = self.window.last_mut().unwrap();
+            let key = &last_entry.data[self.suffix_idx..self.suffix_idx + MIN_MATCH_LEN];
+            if !last_entry.suffixes.contains_key(key) {
+                last_entry.suffixes.insert(key, self.suffix_idx);
+            }
+            self.suffix_idx += 1;
+        
+            proof {
+                assert(same_data(self.window@, w0));
+                lemma_wf_transfer(w0, self.window@);
+            }
+}
+    }
 
     pub fn reserve(&mut self, amount: usize, mut reuse_space: impl FnMut(Vec<u8>, SuffixStore))
         requires
@@ -201,13 +488,15 @@ impl MatchGenerator {
         reuse_space: impl FnMut(Vec<u8>, SuffixStore),
     )
         requires
-            old(self).wf(),
+            old(self).wf(), old(self).sfx_ok(),
+            // a fresh or recycled suffix store must be empty (MatchGeneratorDriver clears recycled stores)
+            forall|i: int| !suffixes.holds(i),
             old(self).window@.len() == 0 || old(self).suffix_idx == old(self).window@[old(self).window@.len() - 1].data@.len(),
             data@.len() <= old(self).max_window_size,
             old(self).max_window_size <= usize::MAX / 2,
             forall|d: Vec<u8>, s: SuffixStore| reuse_space.requires((d, s)),
         ensures
-            final(self).wf(),
+            final(self).wf(), final(self).sfx_ok(),
             final(self).max_window_size == old(self).max_window_size,
             final(self).suffix_idx == 0, final(self).last_idx_in_sequence == 0,
             // the window now holds a chronological suffix of the old blocks followed by the new block, (how much is evicted is the implementation's choice: the property does not fix a retention policy)
@@ -257,7 +546,7 @@ impl MatchGenerator {
             assert(w2.len() == w1.len());
             if w1.len() > 0 {
                 let last_len = w1[w1.len() - 1].data@.len();
-                assert forall|i: int| 0 <= i < w1.len() implies (#[trigger] w2[i]).data == w1[i].data && w2[i].base_offset == len_from(w1, i) by {}
+                assert forall|i: int| 0 <= i < w1.len() implies (#[trigger] w2[i]).data == w1[i].data && w2[i].suffixes == w1[i].suffixes && w2[i].base_offset == len_from(w1, i) by {}
             }
         }
         let len = data.len();
@@ -282,6 +571,11 @@ impl MatchGenerator {
                 } else {
                     assert(len_from(w2, i) == 0);
                 }
+            }
+            // suffix stores: the kept entries carry theirs unchanged; the former newest entry was fully processed (suffix_idx == its length)
+            assert forall|m: int, i: int| 0 <= m < w3.len() - 1 && #[trigger] w3[m].suffixes.holds(i) implies 0 <= i < w3[m].data@.len() by {
+                assert(w3[m].suffixes == w0[m + k].suffixes && w3[m].data == w0[m + k].data);
+                if m + k == w0.len() - 1 { } else { }
             }
             assert(blocks(w3) =~= blocks(w0).subrange(k, w0.len() as int).push(data@));
             assert(blocks_after_append(blocks(w0), blocks(w3), k, data@));
